@@ -263,6 +263,9 @@ def run_impl(case):
             e2m = HomogeneousMatrix(tuple(float(v) for v in case["motion"]["t"]), Quaternion(axis=[0, 0, 1], angle=yaw),
                                     FrameID.BASE_LINK, FrameID.MAP)
             td = TransformDict([e2m])
+            from harness import builders as _B  # registry with a history (replaced ego pose), see builders.give_history
+
+            td = _B.maybe_history(td, e2m, ("c06", case["motion"]["t"], case["est"]["pos"]))
             em, gm = mk3d(mv["rt"]["est"]), mk3d(mv["rt"]["gt"])
             em.frame_id = gm.frame_id = FrameID.MAP
             M = {"cd": om.CenterDistanceMatching, "pd": om.PlaneDistanceMatching, "iou2d": om.IOU2dMatching, "iou3d": om.IOU3dMatching}
